@@ -130,8 +130,7 @@ fn oracle(req: &str, resp: &str) -> Result<Option<&'static str>, String> {
         }
         "pyth" => {
             let v: BigUint = t[2].parse().unwrap(); let e: i64 = t[3].parse().unwrap(); let (td, q): (u32, u32) = (t[4].parse().unwrap(), t[5].parse().unwrap());
-            // literal property: unsupported decimal settings produce an ERROR. Known class F-C26: exponent == i32::MIN panics on `-exponent`.
-            if resp == "panic" { return if e == i32::MIN as i64 { Err("KNOWN F-C26 pyth_price_value_to_decimal panics (i32 negation overflow) for exponent i32::MIN instead of returning an error".into()) } else { Err("panicked".into()) }; }
+            if resp == "panic" { return Err("pyth_price_value_to_decimal panicked".into()); }
             if let Some((val, m)) = parse_ok2(resp) {
                 if td > 20 || q > 20 || td + q > 20 || m != 20 - td - q { return Err("pyth: unsupported decimals accepted / wrong multiplier".into()); }
                 let exact = if e <= 0 { if -e > 60 { BigUint::from(0u8) } else { &v * p10(q) / p10((-e) as u32) } } else { &v * p10(e as u32) * p10(q) };
@@ -214,7 +213,7 @@ fn main() {
             match std::panic::catch_unwind(|| oracle(&req, &resp)) {
                 Ok(Ok(Some(tag))) => { out.stat("oracle.checked"); out.stat(&format!("class.{tag}")); }
                 Ok(Ok(None)) => out.stat("oracle.none"),
-                Ok(Err(what)) => if let Some(rest) = what.strip_prefix("KNOWN F-C26 ") { out.stat("class.pyth.known-F-C26"); out.known("F-C26", rest, &req); } else { out.oracle_fail(&what, &req) },
+                Ok(Err(what)) => out.oracle_fail(&what, &req),
                 Err(_) => out.oracle_fail("oracle panicked", &req),
             }
         }
